@@ -1070,8 +1070,21 @@ class Interp:
         """-> list of (guard_or_True, value_thunk)."""
         if isinstance(itv, SymRange) and is_sym(itv.start):
             # symbolic start, concrete stop, unit step: candidates from the start's interval, each run only if in range
-            if is_sym(itv.stop) or itv.step not in (1, -1):
-                raise Unsupported("range with symbolic start needs a concrete stop and unit step")
+            if itv.step not in (1, -1):
+                raise Unsupported("range with symbolic start needs a unit step")
+            if is_sym(itv.stop):
+                # both ends symbolic: every candidate between the bounds of the two ends, run only if inside [start, stop)
+                lo, _ = self.bounds_of(itv.start)
+                _, hi = self.bounds_of(itv.stop)
+                lo2, _ = self.bounds_of(itv.stop)
+                _, hi2 = self.bounds_of(itv.start)
+                if None in (lo, hi, lo2, hi2) or hi - lo > self.max_loop:
+                    raise Unsupported("no bounds known for a range with two symbolic ends")
+                if itv.step == 1:
+                    return [(z_and(self.A.cmp(">=", k, itv.start), self.A.cmp("<", k, itv.stop)), (lambda kk=k: kk), "skip")
+                            for k in range(lo, hi)]
+                return [(z_and(self.A.cmp("<=", k, itv.start), self.A.cmp(">", k, itv.stop)), (lambda kk=k: kk), "skip")
+                        for k in range(hi2, lo2, -1)]
             lo, hi = self.bounds_of(itv.start)
             if lo is None or hi is None:
                 raise Unsupported("no bounds known for symbolic range start")
